@@ -214,14 +214,14 @@ Example C03_example_cond :
   crm_has_link (table_cond tbl) (crm_run (crm_empty 10) (ops ++ [CParams 2 3 0 [5]]))%N 1%N 3%N [] = true.
 Proof. vm_compute. split; reflexivity. Qed.
 
-Example C03_example_cond_domain :
-  let tbl := [(1, [5], false)]%N in
-  let ops := [KAdd 1 2 3; KAdd 2 3 3; KAdd 1 3 4; KFn 1 2 3 1; KParams 1 2 3 [5]]%N in
-  no_double_add (cdm_proj 3%N ops) = true /\
-  cdm_has_link (table_cond tbl) (cdm_run (cdm_empty 10) ops) 1 3 3%N = false /\   (* condition false *)
-  cdm_has_link (table_cond tbl) (cdm_run (cdm_empty 10) ops) 2 3 3%N = true /\
-  cdm_has_link (table_cond tbl) (cdm_run (cdm_empty 10) ops) 1 3 4%N = true /\    (* other domain *)
-  cdm_has_link (table_cond tbl) (cdm_run (cdm_empty 10) ops) 1 2 4%N = false.
+Example C03_example_cond_domain : (
+  let tbl := [(1, [5], false)] in
+  let ops := [KAdd 1 2 3; KAdd 2 3 3; KAdd 1 3 4; KFn 1 2 3 1; KParams 1 2 3 [5]] in
+  no_double_add (cdm_proj 3 ops) = true /\
+  cdm_has_link (table_cond tbl) (cdm_run (cdm_empty 10) ops) 1 3 3 = false /\   (* condition false *)
+  cdm_has_link (table_cond tbl) (cdm_run (cdm_empty 10) ops) 2 3 3 = true /\
+  cdm_has_link (table_cond tbl) (cdm_run (cdm_empty 10) ops) 1 3 4 = true /\    (* other domain *)
+  cdm_has_link (table_cond tbl) (cdm_run (cdm_empty 10) ops) 1 2 4 = false)%N.
 Proof. vm_compute. repeat split; reflexivity. Qed.
 
 (* a quirk outside the property's quantifier, recorded because it fails open: the conditional DOMAIN
@@ -229,9 +229,9 @@ Proof. vm_compute. repeat split; reflexivity. Qed.
    (role_manager.py 515-517), so a condition registered before the domain has received its first
    link is silently dropped — unlike in the plain conditional manager (C03_example_cond registers
    before or after alike) *)
-Example C03_cond_domain_early_registration_dropped :
-  let tbl := [(1, [], false)]%N in
-  cdm_has_link (table_cond tbl) (cdm_run (cdm_empty 10) [KFn 1 2 3 1; KAdd 1 2 3]%N) 1 2 3%N = true /\
-  cdm_has_link (table_cond tbl) (cdm_run (cdm_empty 10) [KAdd 1 2 3; KFn 1 2 3 1]%N) 1 2 3%N = false /\
-  crm_has_link (table_cond tbl) (crm_run (crm_empty 10) [CFn 1 2 3 1; CLink (OAdd 1 2)]%N) 1 2 [3]%N = false.
+Example C03_cond_domain_early_registration_dropped : (
+  let tbl := [(1, [], false)] in
+  cdm_has_link (table_cond tbl) (cdm_run (cdm_empty 10) [KFn 1 2 3 1; KAdd 1 2 3]) 1 2 3 = true /\
+  cdm_has_link (table_cond tbl) (cdm_run (cdm_empty 10) [KAdd 1 2 3; KFn 1 2 3 1]) 1 2 3 = false /\
+  crm_has_link (table_cond tbl) (crm_run (crm_empty 10) [CFn 1 2 3 1; CLink (OAdd 1 2)]) 1 2 [3] = false)%N.
 Proof. vm_compute. repeat split; reflexivity. Qed.
